@@ -51,10 +51,19 @@ def run_checks(wt, props):
 def main(argv):
     props_all = [l.split('"id": "')[1][:3] for l in open(f"{VERIF}/properties.jsonl")]
     claimed = [c["property_id"] for c in json.load(open(f"{VERIF}/MANIFEST.json"))["checks"]]
-    todo = argv or sorted(os.listdir(OUT))
+    outs = [OUT, OUT + "2"]
+    if argv and argv[0].startswith("--dir="):
+        outs = [argv[0].split("=", 1)[1]]
+        argv = argv[1:]
+    todo = []
+    for o in outs:
+        if os.path.isdir(o):
+            for pid in sorted(os.listdir(o)):
+                if not argv or pid in argv:
+                    todo.append((o, pid))
     summary = []
-    for pid in todo:
-        d = os.path.join(OUT, pid)
+    for o, pid in todo:
+        d = os.path.join(o, pid)
         if not os.path.isdir(d):
             continue
         notes = {}
@@ -62,7 +71,7 @@ def main(argv):
             notes = json.load(open(os.path.join(d, "notes.json")))
         except Exception:
             pass
-        for X in ("A", "B"):
+        for X in ("A", "B", "C", "D"):
             patch = os.path.join(d, f"{X}.patch.diff")
             alt = os.path.join(VERIF, "seeded", f"{pid}-{X}", "patch.diff")
             demo = os.path.join(d, f"{X}_demo.py")
